@@ -37,6 +37,13 @@ pub mod c15;
 pub mod c16;
 pub mod c33;
 pub mod geom2;
+pub mod c06;
+pub mod c08;
+pub mod c24;
+pub mod c11;
+pub mod c25;
+pub mod c25_mutate;
+pub mod crashsig;
 
 pub fn registry() -> Vec<Prop> {
     vec![
@@ -66,5 +73,10 @@ pub fn registry() -> Vec<Prop> {
         Prop { id: "C15", run: c15::run, replay: c15::replay },
         Prop { id: "C16", run: c16::run, replay: c16::replay },
         Prop { id: "C33", run: c33::run, replay: c33::replay },
+        Prop { id: "C06", run: c06::run, replay: c06::replay },
+        Prop { id: "C08", run: c08::run, replay: c08::replay },
+        Prop { id: "C24", run: c24::run, replay: c24::replay },
+        Prop { id: "C11", run: c11::run, replay: c11::replay },
+        Prop { id: "C25", run: c25::run, replay: c25::replay },
     ]
 }
